@@ -640,7 +640,7 @@ fn unused(_: Store) {}
 pub fn run(o: &Opts) -> Report {
     world::install_panic_hook();
     let mut rep = Report::new("netsim", &o.prop, &o.tier, o.seed);
-    rep.rule = "seeded whole-system runs: 4-7 real nodes (real node.rs wiring) on simnet under virtual time with harness-controlled directed links; liveness: <= f crashes at random times, random pre-GST delays/cuts, then stable links, progress checked per window of (4(f+1)+6) timeouts; partial broadcast: a node reaches only one other node for a while, then crashes; catch-up: one node isolated for a random interval then healed (optionally a slow first sync target); e2e: client transactions to several nodes with one node missing another's batch broadcasts; distinct by seed, all non-trivial".into();
+    rep.rule = "seeded whole-system runs: 4-7 real nodes (real node.rs wiring) on simnet under virtual time with harness-controlled directed links; liveness: <= f crashes at random times, random pre-GST delays and lossless outages (frames wait on a held link and are delivered when it comes back: delayed, never lost), then stable links, progress checked per window of (4(f+1)+6) timeouts; partial broadcast: a node reaches only one other node for a while, then crashes; catch-up: one node isolated for a random interval then healed (optionally a slow first sync target); e2e: client transactions to several nodes with one node missing another's batch broadcasts; distinct by seed, all non-trivial".into();
     let which = match o.prop.as_str() {
         "C06" => vec!["liveness"],
         "C07" => vec!["catchup"],
